@@ -145,4 +145,8 @@ MUTANTS = [
     ("pytest-no-strip", ["C11"], "_pytest_plugin.py", "    packages = [pkg.strip() for pkg in value.split(\",\")]", "    packages = [pkg for pkg in value.split(\",\")]"),
     ("pytest-checker-first", ["C11"], "_pytest_plugin.py", "    *packages, typechecker = packages", "    typechecker, *packages = packages"),
     ("pytest-no-already-imported-check", ["C11"], "_pytest_plugin.py", "    if already_imported_packages:", "    if False:"),
+    ("pyc-tag-without-checker-hash", ["C18"], I, 'path, debug_override, optimization=f"jaxtyping9{typechecker_hash}"', 'path, debug_override, optimization="jaxtyping9"'),
+    ("pyc-no-tag", ["C18"], I, "        with patch(\n            \"importlib._bootstrap_external.cache_from_source\",\n            ft.partial(_optimized_cache_from_source, self._typechecker.get_hash()),\n        ):\n            return super().get_code(fullname)", "        return super().get_code(fullname)"),
+    ("pyc-patch-whole-exec", ["C18"], I, "    def get_code(self, fullname):", "    def exec_module(self, module):\n        with patch(\"importlib._bootstrap_external.cache_from_source\", ft.partial(_optimized_cache_from_source, self._typechecker.get_hash())):\n            return super().exec_module(module)\n\n    def get_code_unused(self, fullname):"),
+    ("pyc-hash-collapses", ["C18"], I, '            self.hash = hashlib.md5(typechecker.encode("utf-8")).hexdigest()', '            self.hash = hashlib.md5(typechecker.split(".")[0].encode("utf-8")).hexdigest()'),
 ]
